@@ -87,20 +87,22 @@ func (t Time) TryEqual(input Any) (bool, bool) {
 	if !ok {
 		return false, true
 	}
-	if t.l == val.l {
-		return t.time.Equal(val.time), true
-	}
-
+	// only the time of day is compared: the date part of the underlying
+	// time depends on how the value was constructed.
 	tComponents := t.getComponents()
 	valComponents := val.getComponents()
 
 	minPrecision := min(int(timeMap[t.l]), int(timeMap[val.l]))
 
 	for i := 0; i <= minPrecision; i++ {
-		if tComponents[i] == valComponents[i] && i != int(second) {
-			continue
+		if tComponents[i] != valComponents[i] {
+			return false, true
 		}
-		return tComponents[i] == valComponents[i], true
+	}
+	// all shared components are equal: the values are equal if they have the
+	// same precision, otherwise the comparison has no value.
+	if timeMap[t.l] == timeMap[val.l] {
+		return true, true
 	}
 	return false, false
 }
@@ -128,10 +130,8 @@ func (t Time) Less(input Any) (Boolean, error) {
 	if !ok {
 		return false, fmt.Errorf("%w: %T, %T", ErrTypeMismatch, t, input)
 	}
-	if t.l == val.l {
-		return Boolean(t.time.Before(val.time)), nil
-	}
-
+	// only the time of day is compared: the date part of the underlying
+	// time depends on how the value was constructed.
 	tComponents := t.getComponents()
 	valComponents := val.getComponents()
 
@@ -139,10 +139,13 @@ func (t Time) Less(input Any) (Boolean, error) {
 
 	for i := 0; i <= minPrecision; i++ {
 		// precisions below second are irrelevant, and should be treated the same.
-		if tComponents[i] == valComponents[i] && i != int(second) {
-			continue
+		if tComponents[i] != valComponents[i] {
+			return tComponents[i] < valComponents[i], nil
 		}
-		return tComponents[i] < valComponents[i], nil
+	}
+	// all shared components are equal
+	if timeMap[t.l] == timeMap[val.l] {
+		return false, nil
 	}
 	return false, ErrMismatchedPrecision
 }
